@@ -33,6 +33,8 @@ import Mathlib.LinearAlgebra.Matrix.PosDef
 import Nitime.Lemmas.SqMatBridge
 import Nitime.Lemmas.LWRTransport
 import Nitime.Lemmas.GrangerObj
+import Mathlib.Data.Rat.Defs
+import Mathlib.Tactic.NormNum
 
 open Finset
 open Nitime.AR Nitime.C11
@@ -974,6 +976,89 @@ example : (inv? 1 (@lwrLoop _ (instMatOpsGSq ℂ 1) (fun k => if k = 0 then iden
 
 end concrete
 
+/-! ### round 2 (L8): the covariance stack shared with other consumers -/
+section stack
+variable {M K : Type} [MatOps M]
+
+omit [MatOps M] in
+/-- writing back what was read changes nothing (`setDiag c m (diag c m) = m`) -/
+theorem writeBack_read (diag : ℕ → M → K) (setDiag : ℕ → M → K → M) (dflt : K)
+    (hlaw : ∀ c m, setDiag c m (diag c m) = m) (r : ℕ → M) (s : SliceCall) :
+    writeBack setDiag dflt r s (sliceOf diag r s) = r := by
+  funext k
+  unfold writeBack sliceOf
+  split
+  · next hk => simp [List.getD_eq_getElem?_getD, hk, hlaw]
+  · rfl
+
+omit [MatOps M] in
+/-- **C11 shared covariance stack.** Consumers that only READ the slices they are handed (`post = id`: today's
+`AR_est_LD` / `AR_est_YW`, C10 `runCalls_pure`) leave the stack as it was, for every program of calls on any channels
+and orders — -/
+theorem stack_unchanged_by_readers (diag : ℕ → M → K) (setDiag : ℕ → M → K → M) (dflt : K)
+    (hlaw : ∀ c m, setDiag c m (diag c m) = m) (calls : List SliceCall) (r : ℕ → M) :
+    runSliceCalls diag setDiag dflt id calls r = r := by
+  induction calls generalizing r with
+  | nil => rfl
+  | cons s ss ih =>
+    simp only [runSliceCalls, id]
+    rw [writeBack_read diag setDiag dflt hlaw, ih]
+
+/-- — so the block recursion run afterwards returns what it returns on the covariances of the data -/
+theorem lwr_after_readers (diag : ℕ → M → K) (setDiag : ℕ → M → K → M) (dflt : K)
+    (hlaw : ∀ c m, setDiag c m (diag c m) = m) (calls : List SliceCall) (r : ℕ → M) (P : ℕ) :
+    lwrAfterCalls diag setDiag dflt id calls r P = lwr r P := by
+  unfold lwrAfterCalls
+  rw [stack_unchanged_by_readers diag setDiag dflt hlaw]
+
+/-- the law holds for the driver's lists of rows -/
+theorem setDiagL_diagL {K : Type} [Scalar K] (c : ℕ) (m : List (List K)) : setDiagL c m (diagL c m) = m := by
+  unfold setDiagL diagL GMat.entry
+  by_cases hc : c < m.length
+  · have h1 : m.getD c [] = m[c] := by simp [List.getD_eq_getElem?_getD, hc]
+    rw [h1]
+    by_cases hr : c < m[c].length
+    · have h2 : m[c].getD c Scalar.zero = m[c][c] := by simp [List.getD_eq_getElem?_getD, hr]
+      rw [h2, List.set_getElem_self, List.set_getElem_self]
+    · rw [List.set_eq_of_length_le (l := m[c]) (by omega), List.set_getElem_self]
+  · rw [List.set_eq_of_length_le (by omega)]
+
+/-- the driver's instance (lists of rows over any scalar type): op `marp` -/
+theorem lwr_after_readers_rows {K : Type} [Scalar K] (n : ℕ) (dflt : K) (calls : List SliceCall) (r : ℕ → GSq K n) (P : ℕ) :
+    lwrAfterCalls (M := GSq K n) diagL setDiagL dflt id calls r P = lwr r P :=
+  lwr_after_readers (M := GSq K n) diagL setDiagL dflt setDiagL_diagL calls r P
+
+end stack
+
+/-! counter-model (seed C11-11): a consumer that NORMALISES the slice in place (`rxx_m /= rxx_m[0]`).  One channel,
+`R = [2, 1]`: the scalar call leaves `[1, 1/2]`; the recursion afterwards reports the innovation variance `3/4`, the data's
+is `3/2` (the coefficient `-1/2` is the same: it only depends on the ratios). -/
+
+instance ratMatOps : MatOps ℚ where
+  add := (· + ·)
+  sub := (· - ·)
+  mul := (· * ·)
+  neg := fun a => -a
+  star := id
+  inv := fun a => a⁻¹
+  one := 1
+  zero := 0
+
+def normalisingPost (l : List ℚ) : List ℚ := l.map fun z => z / l.getD 0 0
+
+def stack21 : ℕ → ℚ := fun k => if k = 0 then 2 else if k = 1 then 1 else 0
+
+theorem shared_stack_inplace_counterexample :
+    lwr stack21 1 = ([(-1 / 2 : ℚ)], 3 / 2) ∧
+    lwrAfterCalls (M := ℚ) (fun _ m => m) (fun _ _ v => v) 0 normalisingPost [⟨0, 1⟩] stack21 1 = ([(-1 / 2 : ℚ)], 3 / 4) := by
+  constructor
+  · simp [lwr, lwrLoop, lwrStep, foldAdd, stack21, MatOps.add, MatOps.sub, MatOps.mul, MatOps.neg, MatOps.inv, MatOps.star, MatOps.one]
+    norm_num
+  · simp [lwrAfterCalls, runSliceCalls, writeBack, sliceOf, normalisingPost, lwr, lwrLoop, lwrStep, foldAdd, stack21,
+      MatOps.add, MatOps.sub, MatOps.mul, MatOps.neg, MatOps.inv, MatOps.star, MatOps.one, List.range_succ]
+    norm_num
+
+
 /-! ### `GrangerAnalyzer` re-targeted with `set_input` -/
 section analyzer
 open Nitime.GrangerObj
@@ -1009,6 +1094,22 @@ example (d0 d' : GIn) :
         (construct d0 : Obj GIn (List Fit) Unit Unit)
       = [.model (gFit "bic" (some 1) (some 10) d0), .done, .model (gFit "bic" (some 1) (some 10) d')] := by
   rw [analyzer_retarget_model]; rfl
+
+/-- **C11 analyzer after a failed fit (L7).** `_model` fits pair by pair (`runK`, `gFit1` = `fit_model` of one pair,
+`keepPartial` generated from the source: no instance attribute written outside `__init__` / `set_input`).  For EVERY
+history of reads — including reads that raised `ValueError` after some pairs had been fitted — and `set_input`s, each
+read is the per-pair fit of the input held at that moment. -/
+theorem analyzer_failure_histories (crit : String) (order maxo : Option ℕ) (ops : List (OpK GIn)) (d : GIn) :
+    runK (fun d : GIn => d.ij) (gFit1 crit order maxo) keepPartial ops (constructK d)
+      = refK (fun d : GIn => d.ij) (gFit1 crit order maxo) ops d :=
+  runK_source_eq_refK _ _ ops d
+
+/-- after any failure history, `set_input(d')` + read = the fit of `d'` only -/
+theorem analyzer_retarget_after_failed_fit (crit : String) (order maxo : Option ℕ) (pre : List (OpK GIn)) (d0 d' : GIn) :
+    runK (fun d : GIn => d.ij) (gFit1 crit order maxo) keepPartial (pre ++ [.setInput d', .readModel]) (constructK d0)
+      = refK (fun d : GIn => d.ij) (gFit1 crit order maxo) pre d0 ++
+        [.done, .model (fitList (gFit1 crit order maxo) d' d'.ij)] :=
+  retarget_after_failed_fit_is_fresh _ _ pre d0 d'
 
 end analyzer
 
